@@ -2,7 +2,6 @@ package rules
 
 import (
 	"fmt"
-	"go/constant"
 	"go/token"
 	"go/types"
 	"sort"
@@ -30,6 +29,8 @@ func runC17(c *an.Ctx) {
 	r17e(c)
 	r17f(c)
 	r17h(c)
+	r17i(c)
+	r17j(c)
 }
 
 const exPkg = "executor/executable"
@@ -57,7 +58,7 @@ func statusSend(in ssa.Instruction) (ssa.Value, bool) {
 func isTerminal(c *an.Ctx, state ssa.Value) bool {
 	running := lookupConstInt(c, "github.com/mesos/mesos-go/api/v1/lib", "TASK_RUNNING")
 	if cst, ok := state.(*ssa.Const); ok && cst.Value != nil && running != nil {
-		if k, ok := constant.Int64Val(cst.Value); ok && k == *running {
+		if k, ok := an.Int64Of(cst.Value); ok && k == *running {
 			return false
 		}
 	}
@@ -647,4 +648,204 @@ func r17h(c *an.Ctx) {
 	sort.Strings(bad)
 	c.Ob(exPkg+".pidExists|probe-success-means-exists", fn.Pos(), len(bad) == 0 && n > 0,
 		"after a successful signal-0 probe pidExists can answer something other than the constant true (returns at %v; %d returns reachable with a nil probe error): the TERM/INT/KILL escalation, which probes only the leader of a process group, then stops although members of the group may still be alive", bad, n)
+}
+
+// R17i: (a) a kill request must not hang: every request ControllableTask.Kill makes to the task's control server
+// carries a context with a deadline; (b) a task killed on request is not reported failed: the final state a kill request
+// left for the reaper is used whenever it was received - whatever the process' exit code; (c) the reaper reads the
+// command it waits for once, before Wait: Kill resets that field while the reaper may still be running.
+func r17i(c *an.Ctx) {
+	c.Rule("R17i", "Kill's requests to the task are bounded in time; the reapers use the requested final state unconditionally and keep their own copy of the command", 4)
+	if fn := c.MustFn(exPkg, "ControllableTask.Kill"); fn != nil {
+		n := 0
+		for _, ci := range an.Calls(fn, func(nm string, ci ssa.CallInstruction) bool {
+			args := ci.Common().Args
+			if ci.Common().IsInvoke() {
+				return len(args) > 0 && args[0].Type().String() == "context.Context"
+			}
+			return len(args) > 1 && args[1].Type().String() == "context.Context" && strings.Contains(nm, "occ")
+		}) {
+			cc := ci.Common()
+			ctx := cc.Args[0]
+			if !cc.IsInvoke() {
+				ctx = cc.Args[1]
+			}
+			n++
+			c.Subject()
+			bounded := false
+			for _, l := range an.BackSlice(ctx, an.SliceOpts{LeafCall: func(nm string, _ *ssa.Call) bool {
+				return nm == "context.WithTimeout" || nm == "context.WithDeadline"
+			}}) {
+				if l.Kind == "call" {
+					bounded = true
+				}
+			}
+			c.Ob(fmt.Sprintf("(*executor/executable.ControllableTask).Kill|rpc#%d %s|deadline", n, an.MethodName(cc)), ci.Pos(), bounded,
+				"this request to the task's control server is made without a deadline: a task that stopped answering without closing its socket blocks Kill for ever - no signal is sent and no terminal status follows")
+		}
+		if n == 0 {
+			c.Lost("a request with a context in ControllableTask.Kill")
+		}
+	}
+	for _, name := range []string{"ControllableTask.Launch", "basicTaskBase.startBasicTask"} {
+		fn := c.MustFn(exPkg, name)
+		if fn == nil {
+			continue
+		}
+		found := false
+		for _, f := range an.WithAnon(fn) {
+			an.Instrs(f, func(in ssa.Instruction) {
+				sel, ok := in.(*ssa.Select)
+				if !ok {
+					return
+				}
+				for k, st := range sel.States {
+					if st.Dir != types.RecvOnly || !isFieldNamed(st.Chan, "pendingFinalTaskStateCh") {
+						continue
+					}
+					found = true
+					c.Subject()
+					c.Mark(f)
+					// the received value and the block where this case was taken
+					var recv ssa.Value
+					idx := 2
+					for kk, s2 := range sel.States {
+						if s2.Dir == types.RecvOnly {
+							if kk == k {
+								for _, r := range *sel.Referrers() {
+									if ex, isEx := r.(*ssa.Extract); isEx && ex.Index == idx {
+										recv = ex
+									}
+								}
+							}
+							idx++
+						}
+					}
+					var caseBlk *ssa.BasicBlock
+					for _, r := range *sel.Referrers() {
+						ex, isEx := r.(*ssa.Extract)
+						if !isEx || ex.Index != 0 || ex.Referrers() == nil {
+							continue
+						}
+						for _, rr := range *ex.Referrers() {
+							bo, isBo := rr.(*ssa.BinOp)
+							if !isBo || bo.Op != token.EQL || bo.Referrers() == nil {
+								continue
+							}
+							if kk, isK := an.ConstInt(bo.Y); isK && int(kk) == k {
+								for _, r3 := range *bo.Referrers() {
+									if ifi, isIf := r3.(*ssa.If); isIf {
+										caseBlk = ifi.Block().Succs[0]
+									}
+								}
+							}
+						}
+					}
+					okUse := recv != nil && caseBlk != nil
+					var bad []string
+					if okUse {
+						// every phi that takes the received value: all its edges coming from blocks in which the case was
+						// taken carry the received value
+						n := 0
+						for _, r := range *recv.Referrers() {
+							phi, isPhi := r.(*ssa.Phi)
+							if !isPhi {
+								continue
+							}
+							n++
+							for i, e := range phi.Edges {
+								p := phi.Block().Preds[i]
+								if (p == caseBlk || caseBlk.Dominates(p)) && e != recv {
+									bad = append(bad, c.PosStr(lastPos(p)))
+								}
+							}
+						}
+						// ... or it is stored (into a variable or a field of a result record): then the store itself must be
+						// unconditional once the case was taken
+						for _, r := range *recv.Referrers() {
+							st, isSt := r.(*ssa.Store)
+							if !isSt || st.Val != recv {
+								continue
+							}
+							n++
+							for _, g := range an.ControlConds(st.Block()) {
+								if g.LoopHeader || g.LoopExit {
+									continue
+								}
+								if g.If.Block() == caseBlk || caseBlk.Dominates(g.If.Block()) {
+									bad = append(bad, c.PosStr(condPos(g.V)))
+								}
+							}
+						}
+						if n == 0 {
+							okUse = false
+						}
+					}
+					sort.Strings(bad)
+					c.Ob("executor/executable."+name+"[reaper]|requested-final-state-used", sel.Pos(), okUse && len(bad) == 0,
+						"the final state left by a kill request is received but not always used (paths from %v keep the state derived from the exit status): a task that was killed on request and exits non-zero is reported TASK_FAILED", bad)
+				}
+			})
+		}
+		if !found {
+			c.Lost("the receive from pendingFinalTaskStateCh in the reaper of " + name)
+		}
+	}
+	if fn := c.MustFn(exPkg, "basicTaskBase.startBasicTask"); fn != nil {
+		for _, g := range an.GoClosures(fn) {
+			waits := an.Calls(g.Fn, func(nm string, _ ssa.CallInstruction) bool { return nm == "(*os/exec.Cmd).Wait" })
+			if len(waits) == 0 {
+				continue
+			}
+			c.Subject()
+			var late []string
+			an.Instrs(g.Fn, func(in ssa.Instruction) {
+				ld, ok := in.(*ssa.UnOp)
+				if !ok || ld.Op != token.MUL || !isFieldNamed(ld.X, "taskCmd") {
+					return
+				}
+				for _, w := range waits {
+					if an.CanReach(w, ld) {
+						late = append(late, c.PosStr(ld.Pos()))
+					}
+				}
+			})
+			sort.Strings(late)
+			c.Ob("executor/executable.basicTaskBase.startBasicTask[reaper]|command-read-once", g.Go.Pos(), len(late) == 0,
+				"the reaper reads the task's command field again after Wait (at %v): Kill sets that field to nil while the process may still be running, so the reaper dereferences nil and the panic takes the whole executor down", late)
+		}
+	}
+}
+
+// R17j: killing a basic task terminates its process group: Kill must not forget the command (set the field to nil)
+// before the group was signalled - ensureBasicTaskKilled has nothing to signal once the command is gone.
+func r17j(c *an.Ctx) {
+	c.Rule("R17j", "basicTaskBase.Kill: the process group is signalled before the command is forgotten", 1)
+	fn := c.MustFn(exPkg, "basicTaskBase.Kill")
+	if fn == nil {
+		return
+	}
+	kills := an.Calls(fn, func(nm string, _ ssa.CallInstruction) bool {
+		return strings.HasSuffix(nm, "basicTaskBase).ensureBasicTaskKilled")
+	})
+	if len(kills) == 0 {
+		c.Lost("the call of ensureBasicTaskKilled in basicTaskBase.Kill")
+		return
+	}
+	c.Subject()
+	var early []string
+	an.Instrs(fn, func(in ssa.Instruction) {
+		st, ok := in.(*ssa.Store)
+		if !ok || !isFieldNamed(st.Addr, "taskCmd") || !an.IsNilConst(st.Val) {
+			return
+		}
+		for _, k := range kills {
+			if an.CanReach(st, k) {
+				early = append(early, c.PosStr(st.Pos()))
+			}
+		}
+	})
+	sort.Strings(early)
+	c.Ob("(*executor/executable.basicTaskBase).Kill|signal-before-forget", kills[0].Pos(), len(early) == 0,
+		"the command is set to nil (at %v) before the process group is signalled: ensureBasicTaskKilled then returns at once, TASK_FINISHED is reported and the processes keep running", early)
 }
